@@ -4,7 +4,9 @@ use crate::gen::Rng;
 use crate::text::{self as show, list, split_list};
 use ross_protocol::convert_packet::ConvertPacket;
 use ross_protocol::event::{bcm::*, bootloader::*, button::*, configurator::*, gateway::*, general::*, internal::*, message::*, programmer::*, relay::*};
-use ross_protocol::interface::{usart::UsartError, Interface, InterfaceError};
+use ross_protocol::frame::FrameError;
+use ross_protocol::interface::{can::CanError, serial::SerialError, usart::UsartError, Interface, InterfaceError};
+use ross_protocol::packet::PacketBuilderError;
 use ross_protocol::packet::Packet;
 use ross_protocol::protocol::{Protocol, ProtocolError};
 use std::cell::{Cell, RefCell};
@@ -13,11 +15,40 @@ use std::panic::{catch_unwind, AssertUnwindSafe};
 use std::rc::Rc;
 
 type Log = Rc<RefCell<Vec<String>>>;
-pub struct ScriptIface { rx: VecDeque<Option<Option<Packet>>>, tx: VecDeque<bool>, log: Log, left: Rc<RefCell<usize>> }
+pub enum RxItem { Nothing, Fault(u8), Pkt(Packet) }
+/// the link error a scripted `Interface` answers with for tag `t` (rx item `e` = tag 0, `e1`…`e7`): one of every kind
+fn iface_err(t: u8) -> InterfaceError {
+    match t {
+        0 => InterfaceError::UsartError(UsartError::ReadError),
+        1 => InterfaceError::CanError(CanError::BufferOverrun),
+        2 => InterfaceError::CanError(CanError::MailboxFull),
+        3 => InterfaceError::FrameError(FrameError::WrongSize),
+        4 => InterfaceError::FrameError(FrameError::FrameIsStandard),
+        5 => InterfaceError::BuilderError(PacketBuilderError::OutOfOrder),
+        6 => InterfaceError::BuilderError(PacketBuilderError::MissingFrames),
+        _ => InterfaceError::SerialError(SerialError::ReadError(std::io::Error::new(std::io::ErrorKind::TimedOut, "scripted"))),
+    }
+}
+/// the tag of a link error as it comes back out of the protocol layer (it must be the one that went in)
+fn iface_tag(e: &InterfaceError) -> &'static str {
+    match e {
+        InterfaceError::UsartError(UsartError::ReadError) => "",
+        InterfaceError::CanError(CanError::BufferOverrun) => "1",
+        InterfaceError::CanError(CanError::MailboxFull) => "2",
+        InterfaceError::FrameError(FrameError::WrongSize) => "3",
+        InterfaceError::FrameError(FrameError::FrameIsStandard) => "4",
+        InterfaceError::BuilderError(PacketBuilderError::OutOfOrder) => "5",
+        InterfaceError::BuilderError(PacketBuilderError::MissingFrames) => "6",
+        InterfaceError::SerialError(SerialError::ReadError(_)) => "7",
+        InterfaceError::NoPacketReceived => "N",
+        _ => "?",
+    }
+}
+pub struct ScriptIface { rx: VecDeque<RxItem>, tx: VecDeque<bool>, log: Log, left: Rc<RefCell<usize>> }
 impl Interface for ScriptIface {
     fn try_get_packet(&mut self) -> Result<Packet, InterfaceError> {
         let r = self.rx.pop_front(); *self.left.borrow_mut() = self.rx.len();
-        match r { None | Some(None) => Err(InterfaceError::NoPacketReceived), Some(Some(None)) => Err(InterfaceError::UsartError(UsartError::ReadError)), Some(Some(Some(p))) => Ok(p) }
+        match r { None | Some(RxItem::Nothing) => Err(InterfaceError::NoPacketReceived), Some(RxItem::Fault(t)) => Err(iface_err(t)), Some(RxItem::Pkt(p)) => Ok(p) }
     }
     fn try_send_packet(&mut self, p: &Packet) -> Result<(), InterfaceError> {
         let ok = self.tx.pop_front().unwrap_or(true);
@@ -25,7 +56,7 @@ impl Interface for ScriptIface {
         if ok { Ok(()) } else { Err(InterfaceError::UsartError(UsartError::ReadError)) }
     }
 }
-fn perr(e: &ProtocolError) -> &'static str { match e { ProtocolError::InterfaceError(_) => "ifErr", ProtocolError::NoSuchHandler => "NoSuchHandler", ProtocolError::PacketTimeout => "timeout" } }
+fn perr(e: &ProtocolError) -> String { match e { ProtocolError::InterfaceError(ie) => format!("ifErr{}", iface_tag(ie)), ProtocolError::NoSuchHandler => "NoSuchHandler".into(), ProtocolError::PacketTimeout => "timeout".into() } }
 
 fn xchg_one(pr: &mut Protocol<ScriptIface>, kind: usize, p: Packet, cap: bool, log: &Log) -> Result<Ev, ProtocolError> {
     let l = log.clone(); let w = move || l.borrow_mut().push("w".into());
@@ -156,7 +187,7 @@ pub fn gen(r: &mut Rng) -> String {
     let rxs: Vec<String> = (0..r.below(9))
         .map(|_| match r.below(8) {
             0 => "n".to_string(),
-            1 => "e".to_string(),
+            1 => ["e", "e", "e1", "e2", "e3", "e4", "e5", "e6", "e7"][r.below(9) as usize].to_string(),
             2 | 3 | 4 if !wanted.is_empty() => {
                 let k = *r.pick(&wanted);
                 let mut p = Ev::gen(k, r).ref_packet();
@@ -274,7 +305,7 @@ pub fn enum_exchange(i: u64) -> String {
         let t = 0x10 + pos as u16; // transmitter address: tells the queued replies apart
         match k {
             0 => "n".into(),
-            1 => "e".into(),
+            1 => ["e", "e1", "e3", "e5"][(pos % 4) as usize].into(), // a link error of a different kind at every position
             2 => format!("D:{:04x}:0003{:04x}", own, t),
             3 => format!("D:0009:0003{:04x}", t),
             4 => format!("D:ffff:0003{:04x}", t),
@@ -299,12 +330,13 @@ fn res_str(res: std::thread::Result<Result<(), ProtocolError>>) -> String {
 /// run the history against the real `Protocol`; observation: `<result;…> <log,…> <rx items left>`
 pub fn exec(t: &[&str]) -> Option<String> {
     let own = u16::from_str_radix(t.first()?, 16).ok()?;
-    let rxq: VecDeque<Option<Option<Packet>>> = split_list(t.get(1)?, ',')
+    let rxq: VecDeque<RxItem> = split_list(t.get(1)?, ',')
         .iter()
         .map(|s| match *s {
-            "n" => Some(None),
-            "e" => Some(Some(None)),
-            _ => show::parse_packet(s).map(|p| Some(Some(p))),
+            "n" => Some(RxItem::Nothing),
+            "e" => Some(RxItem::Fault(0)),
+            "e1" | "e2" | "e3" | "e4" | "e5" | "e6" | "e7" => Some(RxItem::Fault(s[1..].parse().ok()?)),
+            _ => show::parse_packet(s).map(RxItem::Pkt),
         })
         .collect::<Option<_>>()?;
     let txq: VecDeque<bool> = if *t.get(2)? == "-" { VecDeque::new() } else { t[2].chars().map(|c| c == 'o').collect() };
